@@ -69,6 +69,10 @@ class SourceD(object):
         from pysmi import error
         from pysmi.mibinfo import MibInfo
         comp = 'source:%s' % self.ident
+        if len(self.trace.events) > 20000:
+            # logical progress bound: compile() keeps asking - stop it instead of hanging the worker
+            raise RuntimeError('progress bound exceeded: %d boundary events, still fetching %s' % (
+                len(self.trace.events), mibname))
         self.trace.add(comp, 'getData', 'call', name=mibname)
         v = self.table.get(mibname)
         if v is None:
